@@ -503,7 +503,7 @@ def gen_io_units():
             "Definition gen_io_units : list (string * string * string * string * string) := [\n%s\n].\n" % body)
 
 
-EXTRA.append(("IOUnits.v", ["C06", "C08", "C17"], gen_io_units))
+EXTRA.append(("IOUnits.v", ["C05", "C06", "C08", "C09", "C10", "C11", "C13", "C14", "C15", "C16", "C17", "C18"], gen_io_units))
 EXTRA.append(("RaiseSites.v", ["C20"], gen_raise_sites))
 
 
